@@ -692,6 +692,10 @@ func (r *rewriter) postCall(c *astutil.Cursor, n *ast.CallExpr) {
 		repl = "WgAdd"
 	case "WaitGroup.Done":
 		repl = "WgDone"
+	case "Pool.Get":
+		repl = "PoolGet"
+	case "Pool.Put":
+		repl = "PoolPut"
 	default:
 		if name == "Mutex" || name == "RWMutex" || name == "Once" || name == "WaitGroup" || name == "Cond" || name == "Map" {
 			r.g.warn = append(r.g.warn, fmt.Sprintf("%s: unhandled sync method %s.%s", r.g.fset.Position(n.Pos()), name, fn.Name()))
@@ -704,6 +708,12 @@ func (r *rewriter) postCall(c *astutil.Cursor, n *ast.CallExpr) {
 		return
 	}
 	args := append([]ast.Expr{ptr}, n.Args...)
+	if name == "Pool" {
+		r.used = true
+		r.g.census["pool."+fn.Name()]++
+		c.Replace(call(rt(repl), args...))
+		return
+	}
 	args = append(args, r.id(n, strings.ToLower(name)+"."+fn.Name()))
 	c.Replace(call(rt(repl), args...))
 }
